@@ -148,6 +148,8 @@ class Report:
             replay = write_replay(self.prop, new_viol) if write else "-"
             for i in new_viol:
                 print("  violation: " + i.line())
+            for i in inc:
+                print("  inconclusive: " + i.line())
             print("VIOLATION property=%s replay=%s" % (self.prop, replay))
             code = 1
         elif inc:
